@@ -54,6 +54,20 @@ M = {
  "n9": lambda: rep("lib/lpc/lex.c", "  while (inctop)\n    {\n      incstate_t *p;\n\n      p = inctop;\n      close (yyin_desc);\n      opt_trace (TT_COMPILE|3, \"closed fd = %d (%s)\\n\"", "  while (inctop && !lex_fatal)\n    {\n      incstate_t *p;\n\n      p = inctop;\n      close (yyin_desc);\n      opt_trace (TT_COMPILE|3, \"closed fd = %d (%s)\\n\""),
  # N10 i_generate_node compares with the counter of the function-code block only (the distinction of the initialiser block lost)
  "n10": lambda: rep("lib/lpc/program/icode.c", "expr->line != (current_block == A_INITIALIZER ? init_line_being_generated : line_being_generated))", "expr->line != line_being_generated)"),
+ # S1 = seeded change C18-1 ported to the code after fix F1: the initialiser branch of switch_to_line no longer returns
+ # early; no run is emitted there (sz = 0) but line_being_generated is updated, so pending function code is
+ # attributed to the initialiser's line
+ "s1": lambda: (rep("lib/lpc/program/icode.c", "  ptrdiff_t sz = CURRENT_PROGRAM_SIZE - last_size_generated;\n  short s;", "  ptrdiff_t sz = 0;\n  short s;"),
+                rep("lib/lpc/program/icode.c", "          init_line_being_generated = line;\n        }\n      return;\n    }\n  if (current_block != A_PROGRAM)\n    return;\n", "          init_line_being_generated = line;\n        }\n    }\n  if (current_block == A_PROGRAM)\n    sz = CURRENT_PROGRAM_SIZE - last_size_generated;\n")),
+ # ---- round 3 ----
+ # P1 wrong but plausible variable: call_stack(2) looks the function up in the program saved in the element itself
+ "p1": lambda: rep("lib/efuns/debug.c", "program_t *prog = (i ? (csp - i + 1)->prog : current_prog);", "program_t *prog = (i ? (csp - i)->prog : current_prog);"),
+ # P2 off by one frame: call_stack(1) takes the objects from the element below
+ "p2": lambda: rep("lib/efuns/debug.c", "ret->item[i].u.ob = (csp - i + 1)->ob;\n          add_ref ((csp - i + 1)->ob, \"f_call_stack\");", "ret->item[i].u.ob = (csp - i)->ob ? (csp - i)->ob : (csp - i + 1)->ob;\n          add_ref (ret->item[i].u.ob, \"f_call_stack\");"),
+ # P3 wrong index kind: the __INIT frame stores the runtime index of the function
+ "p3": lambda: rep("lib/lpc/object.c", "csp->fr.table_index = num_functions - 1;", "csp->fr.table_index = cfp->runtime_index;"),
+ # P4 wrong but plausible operand: the second pass compares the COUNT of an earlier segment with the file id
+ "p4": lambda: rep("lib/lpc/program.c", "if (p2[1] == file)", "if (p2[0] == file)"),
 }
 M[sys.argv[1]]()
 print("applied", sys.argv[1])
